@@ -213,9 +213,14 @@ func vRefMap(r *vRef, src interface{}, rm RM) {
 				}
 			}
 			for _, item := range vSplitRules(rm[k]) {
-				if item != "" {
-					r.rule(prefix, "", prefix+"map["+k+"]", item, val, false)
+				if item == "" {
+					continue
 				}
+				if key := vRuleKey(item); key == Either || key == BothEq {
+					r.rule(prefix, "", k, item, val, false) // group members are listed by their key
+					continue
+				}
+				r.rule(prefix, "", prefix+"map["+k+"]", item, val, false)
 			}
 		}
 		// a required entry that is missing altogether is violated as well
